@@ -41,15 +41,24 @@ runpat=$(echo "$democmd" | sed -n 's/.*-run[ =]\([^ ]*\).*/\1/p' | tr -d "'\"")
 [ -z "$runpat" ] && runpat=.
 extraenv=""
 echo "$democmd" | grep -q -- "-race" && extraenv="-race"
+wasm=0
+echo "$democmd" | grep -q "GOOS=js" && wasm=1
+gotest() { # runs the demo in the worktree
+  if [ $wasm -eq 1 ]; then
+    ( cd "$wt" && GOOS=js GOARCH=wasm go test -vet=off -count=1 -exec="$(go env GOROOT)/misc/wasm/go_js_wasm_exec" -run "$runpat" "./$pkgdir/" )
+  else
+    ( cd "$wt" && CGO_ENABLED=$([ -n "$extraenv" ] && echo 1 || echo 0) go test $extraenv -vet=off -count=1 -run "$runpat" "./$pkgdir/" )
+  fi
+}
 cp "$demo" "$wt/$pkgdir/" || exit 2
 demofile="$wt/$pkgdir/$(basename "$demo")"
-echo "== $name: demo $(basename "$demo") in $pkgdir (run $runpat $extraenv)"
-( cd "$wt" && CGO_ENABLED=$([ -n "$extraenv" ] && echo 1 || echo 0) go test $extraenv -vet=off -count=1 -run "$runpat" "./$pkgdir/" >"$tmpf.clean" 2>&1 ); cleanrc=$?
+echo "== $name: demo $(basename "$demo") in $pkgdir (run $runpat $extraenv wasm=$wasm)"
+gotest >"$tmpf.clean" 2>&1; cleanrc=$?
 ( cd "$wt" && git apply "$src/patch.diff" ) || { echo "RESULT $name patch-does-not-apply"; exit 2; }
 mv "$demofile" "$tmpf.demo"
 ( cd "$wt" && go build ./... && GOOS=js GOARCH=wasm go build . && go test -vet=off -count=1 ./... >"$tmpf.suite" 2>&1 ); suiterc=$?
 mv "$tmpf.demo" "$demofile"
-( cd "$wt" && CGO_ENABLED=$([ -n "$extraenv" ] && echo 1 || echo 0) go test $extraenv -vet=off -count=1 -run "$runpat" "./$pkgdir/" >"$tmpf.mut" 2>&1 ); mutrc=$?
+gotest >"$tmpf.mut" 2>&1; mutrc=$?
 echo "   clean-tree demo rc=$cleanrc (want 0); suite with patch rc=$suiterc (want 0); demo with patch rc=$mutrc (want !=0)"
 ok=1; [ $cleanrc -ne 0 ] && ok=0; [ $suiterc -ne 0 ] && ok=0; [ $mutrc -eq 0 ] && ok=0
 if [ $ok -ne 1 ]; then
@@ -75,6 +84,7 @@ m['id']=sys.argv[3]
 m['breaks_property']=m.get('property')
 m['confirmed']={'clean_tree_demo':'pass','original_suite_with_patch':'pass (go build ./..., GOOS=js GOARCH=wasm go build ., go test -vet=off -count=1 ./...)','demo_with_patch':'fail',
   'ran':'tools/verify_seed.sh in a scratch git worktree of /repo: go test %s -vet=off -count=1 -run %s ./%s/ (clean, then patched); bin/tcellvet -prop all -tier quick -repo <patched worktree>'%(sys.argv[7],sys.argv[5],sys.argv[6])}
+if 'GOOS=js' in m.get('demo_cmd',''): m['confirmed']['ran']=m['confirmed']['ran'].replace('go test ','GOOS=js GOARCH=wasm go test -exec=go_js_wasm_exec (Node) ',1)
 m['caught_by']=sys.argv[4].split()
 json.dump(m,open(sys.argv[2],'w'),indent=1)
 PY
